@@ -23,16 +23,19 @@ mod cc_loom {
 
 // ---- the shared sink behind a loom lock ----------------------------------------------------
 
+/// `.1` = how many bytes one `write` call accepts at most (usize::MAX = everything): a short-writing
+/// sink makes code that re-takes the lock between partial writes visible.
 #[derive(Clone, Debug)]
-struct SharedOut(loom::sync::Arc<loom::sync::Mutex<Vec<u8>>>);
+struct SharedOut(loom::sync::Arc<loom::sync::Mutex<Vec<u8>>>, usize);
 
-struct LockedOut<'a>(loom::sync::MutexGuard<'a, Vec<u8>>);
+struct LockedOut<'a>(loom::sync::MutexGuard<'a, Vec<u8>>, usize);
 
 impl Write for SharedOut {
     fn write(&mut self, buf: &[u8]) -> io::Result<usize> {
         // like `Stdout::write`: lock for this one call
-        self.0.lock().unwrap().extend_from_slice(buf);
-        Ok(buf.len())
+        let n = buf.len().min(self.1);
+        self.0.lock().unwrap().extend_from_slice(&buf[..n]);
+        Ok(n)
     }
     fn flush(&mut self) -> io::Result<()> {
         Ok(())
@@ -41,8 +44,9 @@ impl Write for SharedOut {
 
 impl Write for LockedOut<'_> {
     fn write(&mut self, buf: &[u8]) -> io::Result<usize> {
-        self.0.extend_from_slice(buf);
-        Ok(buf.len())
+        let n = buf.len().min(self.1);
+        self.0.extend_from_slice(&buf[..n]);
+        Ok(n)
     }
     fn flush(&mut self) -> io::Result<()> {
         Ok(())
@@ -66,7 +70,7 @@ impl anstream::stream::RawStream for LockedOut<'_> {}
 impl anstream::stream::AsLockedWrite for SharedOut {
     type Write<'w> = LockedOut<'w>;
     fn as_locked_write(&mut self) -> Self::Write<'_> {
-        LockedOut(self.0.lock().unwrap())
+        LockedOut(self.0.lock().unwrap(), self.1)
     }
 }
 
@@ -137,6 +141,8 @@ fn run_op(s: &mut AnyStream, op: Op) {
 
 struct Scenario {
     name: &'static str,
+    /// bytes accepted per inner write call
+    chunk: usize,
     mode: Mode,
     threads: Vec<Vec<Op>>,
     preemptions: usize,
@@ -149,24 +155,31 @@ fn scenarios() -> Vec<Scenario> {
     let l1 = Op::Line("e\x1b[mf");
     let w1 = Op::All(b"g\x1b[32mh");
     let w2 = Op::All(b"i\x1b[0mj\n");
+    let w3 = Op::All(b"gggg\x1b[32mhhh");
+    let w4 = Op::All(b"iii\x1b[0mjjjj\n");
+    let f3 = Op::Fmt2("aaa\x1b[1m", "bbb\x1b[0m");
     let k0 = Op::Lit(0);
     let k1 = Op::Lit(1);
     let mut v = vec![];
     for (mode, mn) in [(Mode::Never, "never"), (Mode::AlwaysAnsi, "always_ansi"), (Mode::Strip, "strip")] {
-        v.push(Scenario { name: leak(format!("{mn}/2x1/fmt-fmt")), mode, threads: vec![vec![f1], vec![f2]], preemptions: 3, thorough_only: false });
-        v.push(Scenario { name: leak(format!("{mn}/2x1/line-all")), mode, threads: vec![vec![l1], vec![w1]], preemptions: 3, thorough_only: false });
-        v.push(Scenario { name: leak(format!("{mn}/2x1/lit-lit")), mode, threads: vec![vec![k0], vec![k1]], preemptions: 3, thorough_only: false });
-        v.push(Scenario { name: leak(format!("{mn}/2x2/lit,fmt-line,lit")), mode, threads: vec![vec![k0, f2], vec![l1, k1]], preemptions: 2, thorough_only: false });
-        v.push(Scenario { name: leak(format!("{mn}/2x2/fmt,all-line,all")), mode, threads: vec![vec![f1, w1], vec![l1, w2]], preemptions: 2, thorough_only: false });
-        v.push(Scenario { name: leak(format!("{mn}/3x1/fmt-line-all")), mode, threads: vec![vec![f1], vec![l1], vec![w1]], preemptions: 2, thorough_only: false });
-        v.push(Scenario { name: leak(format!("{mn}/3x1/fmt-line-all/p3")), mode, threads: vec![vec![f1], vec![l1], vec![w1]], preemptions: 3, thorough_only: true });
-        v.push(Scenario { name: leak(format!("{mn}/2x2/p3")), mode, threads: vec![vec![f1, w1], vec![l1, w2]], preemptions: 3, thorough_only: true });
-        v.push(Scenario { name: leak(format!("{mn}/3x2/p2")), mode, threads: vec![vec![f1, w1], vec![l1, w2], vec![f2, l1]], preemptions: 2, thorough_only: true });
-        v.push(Scenario { name: leak(format!("{mn}/2x1/unbounded")), mode, threads: vec![vec![f1], vec![w2]], preemptions: usize::MAX, thorough_only: true });
-        v.push(Scenario { name: leak(format!("{mn}/2x2/unbounded")), mode, threads: vec![vec![f1, w1], vec![l1, w2]], preemptions: usize::MAX, thorough_only: true });
-        v.push(Scenario { name: leak(format!("{mn}/2x3/p3")), mode, threads: vec![vec![f1, w1, l1], vec![l1, w2, f2]], preemptions: 3, thorough_only: true });
-        v.push(Scenario { name: leak(format!("{mn}/4x1/p2")), mode, threads: vec![vec![f1], vec![l1], vec![w1], vec![f2]], preemptions: 2, thorough_only: true });
-        v.push(Scenario { name: leak(format!("{mn}/3x2/p3")), mode, threads: vec![vec![f1, w1], vec![l1, w2], vec![f2, l1]], preemptions: 3, thorough_only: true });
+        v.push(Scenario { chunk: usize::MAX, name: leak(format!("{mn}/2x1/fmt-fmt")), mode, threads: vec![vec![f1], vec![f2]], preemptions: 3, thorough_only: false });
+        v.push(Scenario { chunk: usize::MAX, name: leak(format!("{mn}/2x1/line-all")), mode, threads: vec![vec![l1], vec![w1]], preemptions: 3, thorough_only: false });
+        v.push(Scenario { chunk: usize::MAX, name: leak(format!("{mn}/2x1/lit-lit")), mode, threads: vec![vec![k0], vec![k1]], preemptions: 3, thorough_only: false });
+        v.push(Scenario { chunk: usize::MAX, name: leak(format!("{mn}/2x2/lit,fmt-line,lit")), mode, threads: vec![vec![k0, f2], vec![l1, k1]], preemptions: 2, thorough_only: false });
+        v.push(Scenario { chunk: usize::MAX, name: leak(format!("{mn}/2x2/fmt,all-line,all")), mode, threads: vec![vec![f1, w1], vec![l1, w2]], preemptions: 2, thorough_only: false });
+        v.push(Scenario { chunk: usize::MAX, name: leak(format!("{mn}/3x1/fmt-line-all")), mode, threads: vec![vec![f1], vec![l1], vec![w1]], preemptions: 2, thorough_only: false });
+        // the same over a sink that accepts at most 2 bytes per write call
+        v.push(Scenario { chunk: 2, name: leak(format!("{mn}/short-sink/2x1/all-all")), mode, threads: vec![vec![w3], vec![w4]], preemptions: 3, thorough_only: false });
+        v.push(Scenario { chunk: 2, name: leak(format!("{mn}/short-sink/2x1/fmt-lit")), mode, threads: vec![vec![f3], vec![k1]], preemptions: 2, thorough_only: false });
+        v.push(Scenario { chunk: 1, name: leak(format!("{mn}/short-sink1/2x2/all,line-fmt,all")), mode, threads: vec![vec![w3, l1], vec![f3, w4]], preemptions: 2, thorough_only: true });
+        v.push(Scenario { chunk: usize::MAX, name: leak(format!("{mn}/3x1/fmt-line-all/p3")), mode, threads: vec![vec![f1], vec![l1], vec![w1]], preemptions: 3, thorough_only: true });
+        v.push(Scenario { chunk: usize::MAX, name: leak(format!("{mn}/2x2/p3")), mode, threads: vec![vec![f1, w1], vec![l1, w2]], preemptions: 3, thorough_only: true });
+        v.push(Scenario { chunk: usize::MAX, name: leak(format!("{mn}/3x2/p2")), mode, threads: vec![vec![f1, w1], vec![l1, w2], vec![f2, l1]], preemptions: 2, thorough_only: true });
+        v.push(Scenario { chunk: usize::MAX, name: leak(format!("{mn}/2x1/unbounded")), mode, threads: vec![vec![f1], vec![w2]], preemptions: usize::MAX, thorough_only: true });
+        v.push(Scenario { chunk: usize::MAX, name: leak(format!("{mn}/2x2/unbounded")), mode, threads: vec![vec![f1, w1], vec![l1, w2]], preemptions: usize::MAX, thorough_only: true });
+        v.push(Scenario { chunk: usize::MAX, name: leak(format!("{mn}/2x3/p3")), mode, threads: vec![vec![f1, w1, l1], vec![l1, w2, f2]], preemptions: 3, thorough_only: true });
+        v.push(Scenario { chunk: usize::MAX, name: leak(format!("{mn}/4x1/p2")), mode, threads: vec![vec![f1], vec![l1], vec![w1], vec![f2]], preemptions: 2, thorough_only: true });
+        v.push(Scenario { chunk: usize::MAX, name: leak(format!("{mn}/3x2/p3")), mode, threads: vec![vec![f1, w1], vec![l1, w2], vec![f2, l1]], preemptions: 3, thorough_only: true });
     }
     v
 }
@@ -209,7 +222,7 @@ fn run_stream_scenario(sc: &'static Scenario) -> Value {
     let mut b = loom::model::Builder::new();
     b.preemption_bound = (sc.preemptions != usize::MAX).then_some(sc.preemptions);
     b.check(move || {
-        let sink = SharedOut(loom::sync::Arc::new(loom::sync::Mutex::new(Vec::new())));
+        let sink = SharedOut(loom::sync::Arc::new(loom::sync::Mutex::new(Vec::new())), sc.chunk);
         let handles: Vec<_> = sc
             .threads
             .iter()
@@ -240,6 +253,7 @@ fn run_stream_scenario(sc: &'static Scenario) -> Value {
     json!({
         "scenario": sc.name, "kind": "stream", "executions": EXECUTIONS.load(StdOrdering::Relaxed),
         "distinct_outcomes": outcomes.len(), "allowed_outcomes": allowed.len(),
+        "sink_accepts_per_write": if sc.chunk == usize::MAX { json!("everything") } else { json!(sc.chunk) },
         "preemption_bound": if sc.preemptions == usize::MAX { json!("none (full DPOR)") } else { json!(sc.preemptions) }, "threads": sc.threads.len(),
         "interleaved_outcomes": bad,
         "sample_outcome": outcomes.keys().next().map(|k| vexplore::util::show(k)),
@@ -360,6 +374,64 @@ fn reg_scenarios() -> Vec<RegScenario> {
     ]
 }
 
+// ---- seam conformance: the real Stdout/Stderr impls of AsLockedWrite hold the std lock ---------------
+
+/// While the guard returned by `as_locked_write()` on the real `Stdout` / `Stderr` is alive, no
+/// other thread can take the std lock.  A second thread that DOES acquire it proves the guard does
+/// not hold the lock (never a false alarm: if the lock is held the second thread blocks until we
+/// release it).  Nothing is written to the streams.
+fn seam_check() -> Vec<(String, String)> {
+    use anstream::stream::AsLockedWrite;
+    use std::sync::atomic::{AtomicBool, Ordering};
+    use std::sync::Arc;
+    let mut bad = vec![];
+    for which in ["Stdout", "Stderr"] {
+        let acquired = Arc::new(AtomicBool::new(false));
+        let started = Arc::new(AtomicBool::new(false));
+        let release = Arc::new(AtomicBool::new(false));
+        let (a2, s2, r2) = (acquired.clone(), started.clone(), release.clone());
+        let mut out = std::io::stdout();
+        let mut err = std::io::stderr();
+        // take the guard through the code under test
+        let guard_out;
+        let guard_err;
+        if which == "Stdout" {
+            guard_out = Some(out.as_locked_write());
+            guard_err = None;
+        } else {
+            guard_out = None;
+            guard_err = Some(err.as_locked_write());
+        }
+        let h = std::thread::spawn(move || {
+            s2.store(true, Ordering::SeqCst);
+            if which == "Stdout" {
+                let _l = std::io::stdout().lock();
+                a2.store(true, Ordering::SeqCst);
+            } else {
+                let _l = std::io::stderr().lock();
+                a2.store(true, Ordering::SeqCst);
+            }
+            while !r2.load(Ordering::SeqCst) {
+                std::thread::yield_now();
+            }
+        });
+        while !started.load(Ordering::SeqCst) {
+            std::thread::yield_now();
+        }
+        // give the other thread ample time to take the lock if it can
+        std::thread::sleep(std::time::Duration::from_millis(150));
+        let got = acquired.load(Ordering::SeqCst);
+        drop(guard_out);
+        drop(guard_err);
+        release.store(true, Ordering::SeqCst);
+        let _ = h.join();
+        if got {
+            bad.push((which.to_string(), format!("another thread acquired std::io::{}()'s lock while the guard returned by <{which} as AsLockedWrite>::as_locked_write() was alive", which.to_lowercase())));
+        }
+    }
+    bad
+}
+
 // ---- driver ---------------------------------------------------------------------------------------
 
 fn child(name: &str) -> ! {
@@ -447,6 +519,16 @@ fn main_check(ctx: &Ctx) -> Outcome {
             }
         }
     }
+    for (which, msg) in seam_check() {
+        out.findings.push(Finding {
+            system: format!("anstream::stream::AsLockedWrite for std::io::{which}"),
+            clause: "guard-does-not-hold-the-lock".into(),
+            case: vec![which.clone()],
+            message: msg,
+            replay: json!({"kind":"seam"}),
+        });
+    }
+    out.push_part(json!({"system":"seam conformance: real Stdout/Stderr as_locked_write() guards exclude other threads","streams":2}));
     // sequential pass on the real crate: all write/read histories of length 2
     let before = colorchoice::ColorChoice::global();
     let all = [colorchoice::ColorChoice::Auto, colorchoice::ColorChoice::AlwaysAnsi, colorchoice::ColorChoice::Always, colorchoice::ColorChoice::Never];
@@ -504,6 +586,10 @@ fn replay(v: &Value) -> Result<(), String> {
             }
             Ok(())
         }
+        "seam" => match seam_check().first() {
+            Some((_, m)) => Err(m.clone()),
+            None => Ok(()),
+        },
         _ => Ok(()),
     }
 }
